@@ -14,7 +14,8 @@ RULE = ("objects: IBAN, BIC and BBAN (several countries) built with validation o
         "alphabet in 'texts', validated ones where valid, and plain strings (the same texts raw and "
         "compacted). ALL ordered pairs x {==, !=, <, <=, >, >=, hash agreement, dict lookup, set "
         "membership}; sorted() of every 3-subset (quick: of a 14-value cross-section) in every order; "
-        "every object x {copy.copy, copy.deepcopy, pickle protocols 0..HIGHEST}. Oracle: the same "
+        "every object x {copy.copy, copy.deepcopy, pickle protocols 0..HIGHEST}, fresh and after every "
+        "public property was read and the validations were run on it. Oracle: the same "
         "operator on str(x), str(y); sorting equals sorting by str; a copy is ==, same class, same "
         "country_code, same components, an IBAN's .bban again a BBAN of the same country. distinct = "
         "distinct (operation, operands) cases.")
@@ -132,8 +133,32 @@ def describe(v):
             "bban": (type(bban).__name__, str(bban), _get(bban, "country_code")) if bban is not None else None}
 
 
-def copy_problems(v):
+def touch_everything(v):
+    """Use the object the way an application does before it copies it: read every public property
+    and run the validations (whatever such calls leave on the object travels with its copies)."""
+    import inspect
+    for name in dir(type(v)):
+        if name.startswith("_"):
+            continue
+        static = inspect.getattr_static(type(v), name)
+        if callable(static) or isinstance(static, (classmethod, staticmethod)):
+            continue  # methods; what remains are properties, cached properties and other descriptors
+        try:
+            getattr(v, name)
+        except Exception:  # noqa: BLE001
+            pass
+    for call in (lambda: v.validate(), lambda: v.validate(validate_bban=True), lambda: v.validate(True),
+                 lambda: v.validate_national_checksum(), lambda: v.bban.validate_national_checksum()):
+        try:
+            call()
+        except Exception:  # noqa: BLE001
+            pass
+
+
+def copy_problems(v, touched: bool = False):
     probs = []
+    if touched:
+        touch_everything(v)
     want = describe(v)
     ways = [("copy.copy", copy.copy), ("copy.deepcopy", copy.deepcopy)]
     for proto in range(pickle.HIGHEST_PROTOCOL + 1):
@@ -169,6 +194,14 @@ def pairs_shard(args):
         for sig, exp, obs in copy_problems(x):
             validated = "" if "*" not in dx else " (built with allow_invalid)"
             part.violation(f"{sig} [{type(x).__name__}{validated}]", {"kind": "c16copy", "x": dx}, exp, obs)
+        # ... and once more for a fresh object whose properties were all read and whose validations
+        # were run before it is copied
+        part.count(("copy-after-use", dx))
+        part["evals"] += 8
+        for sig, exp, obs in copy_problems(fx(), touched=True):
+            validated = "" if "*" not in dx else " (built with allow_invalid)"
+            part.violation(f"{sig} [{type(x).__name__}{validated}, after its properties were read and it was validated]",
+                           {"kind": "c16copy", "x": dx, "touched": True}, exp, obs)
         part.stat("objects_copied")
     if i == 3:
         part.sample({"pair": [dx, vals[7][0]], "operators": list(OPS) + ["hash", "dict", "set"]})
@@ -205,7 +238,14 @@ def xproc_dump():
     for _, o in objs:
         hash(o)
         {o: 1}
-    sys.stdout.write("DUMP=" + base64.b64encode(pickle.dumps(objs)).decode() + "\n")
+    # one pickle per object: an object that cannot be pickled is reported, not a crash of the harness
+    blobs = []
+    for d, o in objs:
+        try:
+            blobs.append((d, pickle.dumps(o)))
+        except Exception as e:  # noqa: BLE001
+            blobs.append((d, f"pickle.dumps raises {type(e).__name__}"))
+    sys.stdout.write("DUMP=" + base64.b64encode(pickle.dumps(blobs)).decode() + "\n")
 
 
 def xproc_load():
@@ -213,9 +253,18 @@ def xproc_load():
     import base64
     import json
     import sys
-    objs = pickle.loads(base64.b64decode(sys.stdin.read().strip()[5:]))
+    blobs = pickle.loads(base64.b64decode(sys.stdin.read().strip()[5:]))
     fresh = dict(build_values())
     bad = []
+    objs = []
+    for d, blob in blobs:
+        if isinstance(blob, str):
+            bad.append([d, blob])
+            continue
+        try:
+            objs.append((d, pickle.loads(blob)))
+        except Exception as e:  # noqa: BLE001
+            bad.append([d, f"unpickling in another process raises {type(e).__name__}"])
     for d, o in objs:
         s = str(o)
         f = fresh[d]()
@@ -225,7 +274,7 @@ def xproc_load():
             bad.append([d, "unpickled object is not found under its string / an equal object"])
         elif describe(o) != describe(f):
             bad.append([d, "unpickled object differs from a freshly built one"])
-    sys.stdout.write("LOAD=" + json.dumps({"n": len(objs), "bad": bad}) + "\n")
+    sys.stdout.write("LOAD=" + json.dumps({"n": len(blobs), "bad": bad}) + "\n")
 
 
 def xproc_shard(args):
@@ -274,7 +323,7 @@ def replay(case: dict) -> dict:
     if case["kind"] == "c16pair":
         probs = pair_problems(vals[case["x"]](), vals[case["y"]]())
     elif case["kind"] == "c16copy":
-        probs = copy_problems(vals[case["x"]]())
+        probs = copy_problems(vals[case["x"]](), touched=bool(case.get("touched")))
     else:
         seq = [vals[d]() for d in case["values"]]
         try:
